@@ -1,0 +1,183 @@
+//go:build verif
+
+// Contracts for package ofbase, checked by /verif/govc (comment-only file; see /verif/DESIGN.md).
+
+package ofbase
+
+//@ property C19 min-obligations 100
+
+// ---------------------------------------------------------------------------------------------
+// Decoder: reads return the big-endian value at the current position and advance by exactly the width.
+
+//@ func NewDecoder(data) (r) [C19]
+//@   ensures r != nil && fresh(r) && r.offset == 0 && r.baseOffset == 0 && len(r.buffer) == len(data)
+//@   ensures bytes_eq(r.buffer, 0, data, 0, len(data))
+
+//@ func (*Decoder).ReadByte(d) (r) [C19]
+//@   requires 0 <= d.offset && d.offset <= len(d.buffer) && len(d.buffer) - d.offset >= 1
+//@   modifies d.offset
+//@   ensures r == u8(d.buffer, old(d.offset)) && d.offset == old(d.offset) + 1
+
+//@ func (*Decoder).ReadUint8(d) (r) [C19]
+//@   requires 0 <= d.offset && d.offset <= len(d.buffer) && len(d.buffer) - d.offset >= 1
+//@   modifies d.offset
+//@   ensures r == u8(d.buffer, old(d.offset)) && d.offset == old(d.offset) + 1
+
+//@ func (*Decoder).ReadUint16(d) (r) [C19]
+//@   requires 0 <= d.offset && d.offset <= len(d.buffer) && len(d.buffer) - d.offset >= 2
+//@   modifies d.offset
+//@   ensures r == be16(d.buffer, old(d.offset)) && d.offset == old(d.offset) + 2
+
+//@ func (*Decoder).ReadUint32(d) (r) [C19]
+//@   requires 0 <= d.offset && d.offset <= len(d.buffer) && len(d.buffer) - d.offset >= 4
+//@   modifies d.offset
+//@   ensures r == be32(d.buffer, old(d.offset)) && d.offset == old(d.offset) + 4
+
+//@ func (*Decoder).ReadUint64(d) (r) [C19]
+//@   requires 0 <= d.offset && d.offset <= len(d.buffer) && len(d.buffer) - d.offset >= 8
+//@   modifies d.offset
+//@   ensures r == be64(d.buffer, old(d.offset)) && d.offset == old(d.offset) + 8
+
+//@ func (*Decoder).ReadUint128(d) (r) [C19]
+//@   requires 0 <= d.offset && d.offset <= len(d.buffer) && len(d.buffer) - d.offset >= 16
+//@   modifies d.offset
+//@   ensures r.Hi == be64(d.buffer, old(d.offset)) && r.Lo == be64(d.buffer, old(d.offset) + 8)
+//@   ensures d.offset == old(d.offset) + 16
+
+//@ func (*Decoder).Skip(d, n) [C19]
+//@   modifies d.offset
+//@   ensures d.offset == old(d.offset) + n
+
+// Alignment skip: next multiple of 8 counted from the start of the enclosing message
+// (baseOffset + offset), by at most 7 bytes, never backwards.
+//@ func (*Decoder).SkipAlign(d) [C19]
+//@   requires 0 <= d.offset && d.offset <= 1<<40 && 0 <= d.baseOffset && d.baseOffset <= 1<<40
+//@   modifies d.offset
+//@   ensures (d.baseOffset + d.offset) % 8 == 0
+//@   ensures d.offset >= old(d.offset) && d.offset - old(d.offset) <= 7
+
+//@ func (*Decoder).Read(d, n) (r) [C19]
+//@   requires 0 <= d.offset && d.offset <= len(d.buffer) && 0 <= n && n <= len(d.buffer) - d.offset
+//@   modifies d.offset
+//@   ensures len(r) == n && d.offset == old(d.offset) + n
+//@   ensures bytes_eq(r, 0, d.buffer, old(d.offset), n)
+
+//@ func (*Decoder).Length(d) (r) [C19]
+//@   ensures r == len(d.buffer) - d.offset
+
+//@ func (*Decoder).Bytes(d) (r) [C19]
+//@   requires 0 <= d.offset && d.offset <= len(d.buffer)
+//@   ensures len(r) == len(d.buffer) - d.offset
+//@   ensures bytes_eq(r, 0, d.buffer, d.offset, len(r))
+
+//@ func (*Decoder).Offset(d) (r) [C19]
+//@   ensures r == d.offset
+
+//@ func (*Decoder).BaseOffset(d) (r) [C19]
+//@   ensures r == d.baseOffset
+
+// Nested decoder over the next length-rewind bytes; its base offset is the absolute position of its
+// first byte in the enclosing message.
+//@ func (*Decoder).SliceDecoder(d, length, rewind) (r) [C19]
+//@   requires 0 <= d.offset && d.offset <= len(d.buffer) && 0 <= rewind && rewind <= length && length <= 1<<41 && length - rewind <= len(d.buffer) - d.offset
+//@   modifies d.offset
+//@   ensures r != nil && fresh(r) && r.offset == 0 && r.baseOffset == old(d.offset) + d.baseOffset
+//@   ensures len(r.buffer) == length - rewind && d.offset == old(d.offset) + length - rewind
+//@   ensures bytes_eq(r.buffer, 0, d.buffer, old(d.offset), length - rewind)
+
+// ---------------------------------------------------------------------------------------------
+// Encoder: every Put* appends exactly the big-endian bytes of its argument; earlier contents stay.
+
+//@ func NewEncoder() (r) [C19]
+//@   ensures r != nil && fresh(r) && r.buffer != nil && blen(r.buffer) == 0
+
+//@ func (*Encoder).PutChar(e, c) [C19]
+//@   requires e.buffer != nil
+//@   appends e.buffer, 1
+//@   ensures bbyte(e.buffer, blen(e.buffer) - 1) == c
+
+//@ func (*Encoder).PutUint8(e, i) [C19]
+//@   requires e.buffer != nil
+//@   appends e.buffer, 1
+//@   ensures bbyte(e.buffer, blen(e.buffer) - 1) == i
+
+//@ func (*Encoder).PutUint16(e, i) [C19]
+//@   requires e.buffer != nil
+//@   appends e.buffer, 2
+//@   ensures bbe16(e.buffer, blen(e.buffer) - 2) == i
+
+//@ func (*Encoder).PutUint32(e, i) [C19]
+//@   requires e.buffer != nil
+//@   appends e.buffer, 4
+//@   ensures bbe32(e.buffer, blen(e.buffer) - 4) == i
+
+//@ func (*Encoder).PutUint64(e, i) [C19]
+//@   requires e.buffer != nil
+//@   appends e.buffer, 8
+//@   ensures bbe64(e.buffer, blen(e.buffer) - 8) == i
+
+//@ func (*Encoder).PutUint128(e, i) [C19]
+//@   requires e.buffer != nil
+//@   appends e.buffer, 16
+//@   ensures bbe64(e.buffer, blen(e.buffer) - 16) == i.Hi && bbe64(e.buffer, blen(e.buffer) - 8) == i.Lo
+
+//@ func (*Encoder).Write(e, b) [C19]
+//@   requires e.buffer != nil
+//@   appends e.buffer, len(b)
+//@   ensures bbytes_eq(e.buffer, blen(e.buffer) - len(b), b, 0, len(b))
+
+//@ func (*Encoder).Bytes(e) (r) [C19]
+//@   requires e.buffer != nil
+//@   ensures len(r) == blen(e.buffer)
+//@   ensures sbytes_eq(r, 0, e.buffer, 0, len(r))
+
+// Alignment skip: pads with zero bytes to the next multiple of 8, at most 7 bytes.
+//@ func (*Encoder).SkipAlign(e) [C19]
+//@   requires e.buffer != nil
+//@   appends e.buffer, (8 - blen(e.buffer)%8) % 8
+//@   ensures blen(e.buffer) % 8 == 0
+//@   ensures bzero(e.buffer, old(blen(e.buffer)), blen(e.buffer))
+
+// ---------------------------------------------------------------------------------------------
+// Header decoding: fewer than 8 bytes give an error, never a panic; otherwise the fields are the bytes.
+
+//@ func (*Header).Decode(self, decoder) (err) [C19]
+//@   requires decoder != nil && 0 <= decoder.offset && decoder.offset <= len(decoder.buffer)
+//@   modifies *self, decoder.offset
+//@   ensures (len(decoder.buffer) - old(decoder.offset) < 8) ==> err != nil
+//@   ensures (len(decoder.buffer) - old(decoder.offset) >= 8) ==> err == nil
+//@   ensures err == nil ==> self.Version == u8(decoder.buffer, old(decoder.offset)) && self.Type == u8(decoder.buffer, old(decoder.offset) + 1)
+//@   ensures err == nil ==> self.Length == be16(decoder.buffer, old(decoder.offset) + 2) && self.Xid == be32(decoder.buffer, old(decoder.offset) + 4)
+//@   ensures err == nil ==> decoder.offset == old(decoder.offset) + 8
+
+// ---------------------------------------------------------------------------------------------
+// Symmetry, as the inductive step over all write sequences: for ANY encoder state, what a Put* appends is
+// what the matching Read* returns from that position, and the read advances by exactly the width.
+
+//@ func lemmaSym8(e, v) (r, off, l) [C19]
+//@   requires e.buffer != nil
+//@   appends e.buffer, 1
+//@   ensures r == v && off == l + 1
+
+//@ func lemmaSym16(e, v) (r, off, l) [C19]
+//@   requires e.buffer != nil
+//@   appends e.buffer, 2
+//@   ensures r == v && off == l + 2
+
+//@ func lemmaSym32(e, v) (r, off, l) [C19]
+//@   requires e.buffer != nil
+//@   appends e.buffer, 4
+//@   ensures r == v && off == l + 4
+
+//@ func lemmaSym64(e, v) (r, off, l) [C19]
+//@   requires e.buffer != nil
+//@   appends e.buffer, 8
+//@   ensures r == v && off == l + 8
+
+//@ func lemmaSym128(e, v) (r, off, l) [C19]
+//@   requires e.buffer != nil
+//@   appends e.buffer, 16
+//@   ensures r.Hi == v.Hi && r.Lo == v.Lo && off == l + 16
+
+//@ func lemmaSymSequence(a, b, c, d, x) (a2, b2, c2, d2, x2, rest) [C19]
+//@   ensures a2 == a && b2 == b && c2 == c && d2 == d && x2.Hi == x.Hi && x2.Lo == x.Lo && rest == 0
